@@ -506,6 +506,66 @@ theorem protection_survives_partial (ops : List Op) (s : St) (hwf : WF s) (hh : 
     rw [this]
     exact g j m hj
 
+/-- **C14 (constant, over histories).**  Under single inheritance, through any history without
+`edit_constant` blocks and explicit flag edits (and without the library renaming the object, when
+the parameter is `name`), an instance governed by a constant Parameter keeps the very object it has
+stored, and stays governed by a constant Parameter — so every attempt along the way to assign
+another object is refused (`forbidden_attempt_raises_TypeError_and_keeps_value` applies in every
+intermediate state). -/
+theorem constant_stored_over_history (ops : List Op) (s : St) (hwf : WF s) (hh : Hier s)
+    (hb : ops.all (fun op => !op.isBlock) = true) (hf : noFlagL ops = true)
+    (j : IId) (m : Name) (hj : j < s.insts.length) (hc : isConst (govFlags s j m) = true)
+    (hren : ops.all (fun op => !op.renames.isSome) = true ∨ m ≠ "name") :
+    stored (run s ops) j m = stored s j m ∧ govFlags (run s ops) j m = govFlags s j m := by
+  induction ops generalizing s with
+  | nil => exact ⟨rfl, rfl⟩
+  | cons op ops ih =>
+    simp only [List.all_cons, Bool.and_eq_true, Bool.not_eq_true'] at hb
+    simp only [noFlagL, Bool.and_eq_true] at hf
+    simp only [run, List.foldl_cons]
+    obtain ⟨g, hh'⟩ := protection_survives_step s hwf hh op hb.1 hf.1
+    have hst := constant_object_changes_only_inside_edit_constant s op hwf hb.1 j m hj hc (by
+      intro hr
+      rcases hren with h | h
+      · simp only [List.all_cons, Bool.and_eq_true, Bool.not_eq_true'] at h
+        rw [h.1] at hr; cases hr
+      · exact h)
+    have hj' : j < (step s op).1.insts.length := by
+      obtain ⟨x, hx⟩ : ∃ x, s.insts[j]? = some x := ⟨_, List.getElem?_eq_getElem hj⟩
+      obtain ⟨x', hx', _⟩ := (frame_step op s).insts j x hx
+      exact (List.getElem?_eq_some_iff.1 hx').1
+    have hren' : ops.all (fun op => !op.renames.isSome) = true ∨ m ≠ "name" := by
+      rcases hren with h | h
+      · simp only [List.all_cons, Bool.and_eq_true] at h; exact Or.inl h.2
+      · exact Or.inr h
+    have := ih (step s op).1 (wf_step op s hwf) hh' hb.2 hf.2 hj' (by rw [g j m hj]; exact hc) hren'
+    simp only [run] at this
+    exact ⟨this.1.trans hst, this.2.trans (g j m hj)⟩
+
+/-- … and therefore `getattr` keeps returning that object: class-level assignments made meanwhile,
+on the declaring class or on subclasses, do not reach the instance -/
+theorem constant_held_over_history (ops : List Op) (s : St) (hwf : WF s) (hh : Hier s)
+    (hb : ops.all (fun op => !op.isBlock) = true) (hf : noFlagL ops = true)
+    (j : IId) (m : Name) (o : Obj) (hj : j < s.insts.length) (hc : isConst (govFlags s j m) = true)
+    (hren : ops.all (fun op => !op.renames.isSome) = true ∨ m ≠ "name")
+    (hs : stored s j m = some o)
+    (x' : Inst) (po : PId × CId) (hx' : (run s ops).insts[j]? = some x')
+    (hd : descriptor (run s ops) x'.cls m = some po) :
+    held (run s ops) j m = some o :=
+  held_of_stored _ j x' m o po hx' hd
+    ((constant_stored_over_history ops s hwf hh hb hf j m hj hc hren).1.trans hs)
+
+/-- **C14 (copies).**  A per-instance Parameter copy is an exact copy of the Parameter it was taken
+from — `constant`, `readonly`, default and all: protection (and its absence) is inherited. -/
+theorem per_instance_copy_is_a_copy {s s1 : St} {i : IId} {x x1 : Inst} {n : Name} {p ip : PId}
+    (h : instantiated s i x n p = .ok (s1, x1, ip)) (hnew : aget x.iparams n = none) :
+    ip = s.heap.length ∧ s1.heap[ip]? = s.heap[p]? := by
+  rcases instantiated_spec h with ⟨_, _, h0⟩ | ⟨q, _, hq, rfl, rfl, rfl⟩
+  · rw [hnew] at h0; cases h0
+  · refine ⟨rfl, ?_⟩
+    rw [hq]
+    exact List.getElem?_concat_length
+
 /-! ### Non-vacuity: concrete states and histories that meet the hypotheses -/
 
 example : WF witnessState := witnessState_wf
@@ -544,6 +604,16 @@ example :
 example : (step (step witnessState (.genName 0)).1 (.instSet 0 "c" 5)).2 = .typeError ∧
     held (step witnessState (.genName 0)).1 0 "name" = some 4 ∧
     (step (step witnessState (.setName 0 9)).1 (.instSet 0 "name" 5)).2 = .typeError := by decide
+/-- a rejected renaming (a value `name` refuses) leaves the object as it was, and locked; an
+`edit_constant` whose entry is interrupted by a raising watcher restores what it had cleared -/
+example :
+    let s : St := { witnessState with nonStr := [8],
+      heap := [{ constant := true, readonly := false, default := 0 },
+               { constant := true, readonly := false, default := 1, strOnly := true }] }
+    step s (.setName 0 8) = (s, .valueError) ∧ (step s (.instSet 0 "name" 8)).2 = .valueError ∧
+    (step (step s (.setName 0 8)).1 (.instSet 0 "c" 5)).2 = .typeError ∧
+    (step s (.failingEntry 0 "c")).2 = .runtimeError ∧
+    (step (step s (.failingEntry 0 "c")).1 (.instSet 1 "name" 5)).2 = .typeError := by decide
 /-- the initial state built by `declare` -/
 example : clsFlags (initState 4 [([0], [("c", true, false, 0, false), ("r", false, true, 2, false)]), ([1, 0], [])]) 1 "r"
     = some (true, true) := by decide
